@@ -1,5 +1,7 @@
 package main
 
+// verif:needs c18
+
 // C19: a reported immediate road threat for the side to move is a real winning move.
 // CASE <enc position> | <wp wt bp bt of ai.CountThreats>
 // Direct oracle: when the counts of the side to move are positive (ply >= 2, game not over), a one-ply search with the
